@@ -7,11 +7,12 @@ import "unsafe"
 // Verification hook (build tag "verif" only): observes how a Writer uses the shared buffer pool.
 // "get" is reported after the buffer has been taken, "copy" after the content has been copied out,
 // "put" before the buffer goes back - so the order of the reports is an order in which the pool
-// operations could have happened.  No behaviour.
-var VerifPoolHook func(ev string, writer, buffer uintptr, length int)
+// operations could have happened.  Pointers (not addresses) are passed so that the observer can
+// keep the objects alive and tell them apart.  No behaviour.
+var VerifPoolHook func(ev string, writer, buffer unsafe.Pointer, length int)
 
 func verifPoolEvent(ev string, w *Writer) {
 	if h := VerifPoolHook; h != nil {
-		h(ev, uintptr(unsafe.Pointer(w)), uintptr(unsafe.Pointer(w.buf)), w.buf.Len())
+		h(ev, unsafe.Pointer(w), unsafe.Pointer(w.buf), w.buf.Len())
 	}
 }
